@@ -86,6 +86,7 @@ class Runner
         std::size_t budget{0};
         bool budget_known{true};  // false after copy / element-wise move: only what is stored is known to fit
         bool exact{true};         // the data block was sized for exactly this capacity (construction / reserve)
+        bool unspecified{false};  // C17: an assignment into this vector threw: valid but unspecified contents
         std::array<std::size_t, (NF ? NF : 1)> fixed{};
         int arena{0};
     };
@@ -482,7 +483,8 @@ class Runner
     }
 
     // make sure slot s holds a usable (alive, not moved-from) vector; construct one from the op's fields otherwise
-    bool usable(int s) const { return vs[s].m.alive && !vs[s].m.moved_from; }
+    bool usable(int s) const { return vs[s].m.alive && !vs[s].m.moved_from && !vs[s].m.unspecified; }
+    bool readable(int s) const { return vs[s].m.alive && !vs[s].m.moved_from; }
     bool constructed_this_op{false};
     void ensure(int s, const Op& op)
     {
@@ -983,7 +985,7 @@ class Runner
         {
             for (int s = 0; s < NSLOT; ++s)
             {
-                if (!usable(s)) continue;
+                if (!readable(s)) continue;
                 Vec& v = *vs[s].v;
                 for (std::size_t i = 0; i < v.size(); ++i)
                 {
@@ -1000,7 +1002,7 @@ class Runner
     {
         for (int d = 0; d < NSLOT; ++d)
         {
-            if (!eusable(d)) continue;
+            if (!es[d].alive || es[d].moved_from || !es[d].e->memory_) continue;
             auto ex = extents(*es[d].e);
             for (std::size_t k = 0; k < N; ++k)
                 if (LI::tracked[k])
@@ -1289,6 +1291,125 @@ class Runner
 
 #include "runner_ext.inc"
 
+    // ---------------------------------------------------------------------------------------------------------
+    // C17: the last op of the program is the target of the fault injection
+    // ---------------------------------------------------------------------------------------------------------
+    void fault_step(const Op& op)
+    {
+        // make operands exist before the fault is armed (repairs would otherwise allocate under the fault)
+        const int s = op.a % NSLOT;
+        switch (op.kind)
+        {
+            case K_RESERVE:
+            case K_COPYCTOR:
+            case K_COPYASSIGN:
+            case K_MOVEASSIGN: ensure(s, op); break;
+            default: break;
+        }
+        if (op.kind == K_COPYASSIGN || op.kind == K_MOVEASSIGN) ensure_alive_target(other_slot(s, op.a / 3));
+        if (op.kind == K_COPYCTOR) destroy_slot(other_slot(s, op.a / 3));
+        if (op.kind == K_NEW) destroy_slot(s);
+        if (op.kind == K_ELEM_FROM_REF || op.kind == K_ELEM_COPY || op.kind == K_ELEM_MOVE)
+        {
+            if (op.kind == K_ELEM_FROM_REF)
+                destroy_eslot(static_cast<int>((op.a / 3) % NSLOT));
+            else
+                destroy_eslot(other_slot(s, op.a / 3));
+        }
+        const uint64_t before = ledger().n_alloc;
+        bool threw = false;
+        if (g_fault_k > 0) ledger().fail_countdown = g_fault_k;
+        try
+        {
+            step(op);
+        }
+        catch (const std::bad_alloc&)
+        {
+            threw = true;
+        }
+        ledger().fail_countdown = -1;
+        st.last_op_allocs = ledger().n_alloc - before;
+        st.last_op_threw = threw;
+        if (!threw || bad()) return;
+        st.label("fault_injected");
+        // which operands are now "valid but unspecified"
+        if (op.kind == K_COPYASSIGN || op.kind == K_MOVEASSIGN)
+        {
+            const int dst = other_slot(s, op.a / 3);
+            vs[dst].m.unspecified = true;
+            vs[dst].m.moved_from = false;
+            if (op.kind == K_MOVEASSIGN) vs[s].m.unspecified = true;
+        }
+        if (op.kind == K_ELEM_COPYASSIGN || op.kind == K_ELEM_MOVEASSIGN)
+        {
+            const int dst = other_slot(s, op.a / 3);
+            es[dst].unspecified = true;
+            if (op.kind == K_ELEM_MOVEASSIGN) es[s].unspecified = true;
+        }
+        if (op.kind == K_ELEM_MOVE) es[s].unspecified = true;
+        after_fault();
+    }
+
+    void after_fault()
+    {
+        // 1. ledger / registry events so far
+        if (!ledger().errors.empty())
+        {
+            fail(ledger().errors[0].code, "after an injected allocation failure: " + ledger().errors[0].msg);
+            return;
+        }
+        if (!registry().errors.empty())
+        {
+            fail(registry().errors[0].code, "after an injected allocation failure: " + registry().errors[0].msg);
+            return;
+        }
+        // 2. untouched operands equal their models (reserve / copy construction leave the source unchanged)
+        for (int s = 0; s < NSLOT && !bad(); ++s) monitor_values(s);
+        for (int s = 0; s < NSLOT && !bad(); ++s) monitor_elem_values(s);
+        if (bad()) return;
+        // 3. unspecified operands are valid: size() equals the number of live elements (every element readable,
+        //    live tracked objects == reachable ones)
+        for (int s = 0; s < NSLOT && !bad(); ++s)
+        {
+            if (!vs[s].m.alive || !vs[s].m.unspecified) continue;
+            Vec& v = *vs[s].v;
+            const std::size_t n = v.size();
+            std::size_t seen = 0;
+            for (auto&& r : v)
+            {
+                (void)read_ref(r);
+                ++seen;
+            }
+            VF_REQUIRE(seen == n, "size_after_fault", "iteration yields " + std::to_string(seen) + " elements, size()==" + std::to_string(n));
+        }
+        for (int s = 0; s < NSLOT; ++s)
+            if (es[s].alive && es[s].unspecified && es[s].e->memory_) (void)read_ref(*es[s].e);
+        if (!registry().errors.empty())
+        {
+            fail(registry().errors[0].code, "reading an operand after an injected allocation failure: " + registry().errors[0].msg);
+            return;
+        }
+        monitor_lifetimes();
+        if (bad()) return;
+        // 4. assignable: give every unspecified vector a fresh value and read it back
+        for (int s = 0; s < NSLOT && !bad(); ++s)
+        {
+            if (!vs[s].m.alive || !vs[s].m.unspecified) continue;
+            const int scratch = (s + 1) % NSLOT == s ? (s + 2) % NSLOT : (s + 1) % NSLOT;
+            int t = scratch;
+            if (vs[t].m.alive && vs[t].m.unspecified) t = (s + 2) % NSLOT;
+            construct_slot(t, 2, 16, fixed_from(9), vs[s].m.arena);
+            MElem e = make_model_elem(vs[t].m, 5, 1, false, remaining_budget(vs[t].m));
+            do_emplace_model(*vs[t].v, e, 0);
+            vs[t].m.el.push_back(e);
+            *vs[s].v = std::move(*vs[t].v);
+            vs[s].m = vs[t].m;
+            vs[t].m.moved_from = true;
+            vs[t].m.el.clear();
+            monitor_values(s);
+        }
+    }
+
     void finish()
     {
         // destroy everything, then the end-of-case clauses (after a failure nothing is touched any more)
@@ -1307,7 +1428,17 @@ class Runner
                 VF_REQUIRE(ledger().find_containing(p) == nullptr, "object_never_destroyed", "after all containers were destroyed an object at " + Registry::addr(p) + " is still alive in container memory");
             VF_REQUIRE(r.live.empty(), "object_never_destroyed", "after all containers were destroyed " + std::to_string(r.live.size()) + " tracked objects are still alive");
         }
-        if (prop == 7)
+        if (prop == 17)
+        {
+            auto& r = registry();
+            if (!r.errors.empty())
+            {
+                fail(r.errors[0].code, r.errors[0].msg);
+                return;
+            }
+            VF_REQUIRE(r.live.empty(), "object_never_destroyed", "after all containers were destroyed " + std::to_string(r.live.size()) + " tracked objects are still alive");
+        }
+        if (prop == 7 || prop == 17)
         {
             auto& l = ledger();
             if (!l.errors.empty())
@@ -1332,7 +1463,10 @@ class Runner
         for (std::size_t i = 0; i < prog.ops.size() && !bad(); ++i)
         {
             cur_op = static_cast<int>(i);
-            step(prog.ops[i]);
+            if (prop == 17 && i + 1 == prog.ops.size())
+                fault_step(prog.ops[i]);
+            else
+                step(prog.ops[i]);
         }
         cur_op = static_cast<int>(prog.ops.size());
         finish();
